@@ -56,7 +56,7 @@ META = {
                     "revision caches of the Branch object do not change answers (several questions are asked of one object per case)"],
     "rule": "num/spec/iter cases on histories containing a merge are non-trivial; distinct = distinct (input, observation)",
 }
-SHARD = 120
+SHARD = 200
 
 _state = {}
 
@@ -149,8 +149,10 @@ def _specs_for(rng, g, tip, tags, tier):
     base = [["revno", k, True] for k in range(0, last + 2)] + [["dotted", d, True] for d in dotted] + \
            [["revid", r] for r in some] + [["tag", t] for t, _ in tags] + [["last", 1], ["revno", -1, True]]
     for s in base:
-        out.append(["before", s])
-        out.append(["mainline", s])
+        if rng.random() < 0.6:
+            out.append(["before", s])
+        if rng.random() < 0.6:
+            out.append(["mainline", s])
     for s in rng.sample(base, min(4, len(base))):
         out.append(["before", ["before", s]])
         out.append(["mainline", ["before", s]])
@@ -166,7 +168,7 @@ def _specs_for(rng, g, tip, tags, tier):
 
 
 def _graphs(rng, tier):
-    ndag, maxn = (22, 11) if tier == "quick" else (260, 14)
+    ndag, maxn = (12, 11) if tier == "quick" else (150, 14)
     out = [list(map(list, g)) for g in msortlib.FIXED]
     for i in range(ndag):
         out.append(daglib.gen_dag(rng, rng.randint(3, maxn), p_merge=0.3 + 0.3 * rng.random(),
@@ -174,7 +176,17 @@ def _graphs(rng, tier):
     return out
 
 
-def _cases_for(rng, g, tier, full=False):
+def _dedupe(items):
+    seen, out = set(), []
+    for x in items:
+        k = repr(x)
+        if k not in seen:
+            seen.add(k)
+            out.append(x)
+    return out
+
+
+def _cases_for(rng, g, tier, gi=0):
     n = len(g)
     good = good_tips(g)
     ghosts = sorted({p for ps in g for p in ps if p >= n})
@@ -182,20 +194,18 @@ def _cases_for(rng, g, tier, full=False):
         yield {"kind": "ms", "g": g, "tip": tip}
     if not good:
         return
-    tips = [good[-1]] + rng.sample(good, min(len(good), 1 if tier == "quick" else 3))
-    if full:
-        tips = good
-    for tip in dict.fromkeys(tips + [None]):
+    tips = list(dict.fromkeys([good[-1]] + rng.sample(good, min(len(good), 1 if tier == "quick" else 2))))
+    for tip in tips + [None]:
         last = daglib.revno_of(g, tip) or 0
         rmap = msortlib.revno_map(g, tip)
         ds = [list(d) for d in rmap.values()]
         ds += [[1, 7, 1], [0, 1, 1], [last + 1], [0], [1, 1], [1, 1, 1, 1], [last, 1, 2]]
         yield {"kind": "num", "g": g, "tip": tip, "rs": list(range(n)) + ghosts[:1] + [n + 30],
                "ns": list(range(-1, last + 3)), "ds": ds}
-    for tip in dict.fromkeys(tips):
+    for tip in tips:
         ms = ref_merge_sort(g, tip)
         ids = [x for x, _d, _r, _e in ms]
-        for _ in range(6 if tier == "quick" else 12):
+        for _ in range(6 if tier == "quick" else 10):
             start = rng.choice(ids + [None, None] + list(range(n)))
             stop = rng.choice(ids + [None])
             rule = rng.choice(["exclude", "include", "with-merges", "with-merges-without-common-ancestry"])
@@ -203,29 +213,26 @@ def _cases_for(rng, g, tier, full=False):
                 start = rng.choice(ids)
             yield {"kind": "iter", "g": g, "tip": tip, "start": start, "stop": stop, "rule": rule,
                    "forward": rng.random() < 0.3}
-        # every revision of the ancestry as a start (the non-ancestor filter)
-        for start in ids:
-            yield {"kind": "iter", "g": g, "tip": tip, "start": start, "stop": None, "rule": "exclude", "forward": False}
-    for tip in dict.fromkeys(tips[:2] + [None]):
+        # every merged revision of the ancestry as a start (the non-ancestor filter)
+        for start, d, _r, _e in ms:
+            if d > 0 or rng.random() < 0.2:
+                yield {"kind": "iter", "g": g, "tip": tip, "start": start, "stop": None, "rule": "exclude", "forward": False}
+    for tip in tips[:1] + ([None] if gi % 4 == 0 else []):
         pool = list(range(n)) + ghosts[:1]
         tags = [[t, rng.choice(pool)] for t in range(2)]
-        for s in _specs_for(rng, g, tip, tags, tier):
+        for s in _dedupe(_specs_for(rng, g, tip, tags, tier)):
             yield {"kind": "spec", "g": g, "tip": tip, "tags": tags, "spec": s}
     for _ in range(4):
         yield {"kind": "graph", "g": g, "a": rng.randrange(n), "b": rng.randrange(n), "tip": rng.choice(good)}
 
 
 def corpus():
-    rng = __import__("random").Random(22)
-    out = []
-    for g in msortlib.FIXED[:2]:
-        out.extend(_cases_for(rng, [list(ps) for ps in g], "quick", full=True))
-    return out
+    return []
 
 
 def cases(rng, tier):
-    for g in _graphs(rng, tier)[2:]:
-        yield from _cases_for(rng, g, tier)
+    for gi, g in enumerate(_graphs(rng, tier)):
+        yield from _cases_for(rng, g, tier, gi)
 
 
 # ---- implementation driver ----------------------------------------------------------------------
@@ -256,10 +263,16 @@ def impl(inp):
     h = _state["h"]
     g, kind = inp["g"], inp["kind"]
     if kind == "graph":
+        import vcsgraph.errors
         br = h.source(g)
         with br.lock_read():
             gr = br.repository.get_graph()
-            lca = gr.find_unique_lca(rid(inp["a"]), rid(inp["b"]))
+            try:
+                lca = gr.find_unique_lca(rid(inp["a"]), rid(inp["b"]))
+            except vcsgraph.errors.NoCommonAncestor:
+                # histories that do not even share the null revision (a ghost at the bottom of
+                # one of them): the same "nothing in common" as null:
+                lca = b"null:"
             mg = gr.find_lefthand_merger(rid(inp["a"]), rid(inp["tip"]))
         return [idx(lca), None if mg is None else idx(mg)]
     br = h.at_tip(g, inp["tip"])
@@ -356,6 +369,8 @@ def _expect_spec(g, tip, tags, s, real_map):
         return ("ok", d[s[1]]) if s[1] in d else ("err",)
     if k == "before":
         e = _expect_spec(g, tip, tags, s[1], real_map)
+        if e[0] == "lca":
+            return ("any",)
         if e[0] != "ok":
             return e
         if e[1] is None or e[1] >= n:
@@ -372,23 +387,36 @@ def _expect_spec(g, tip, tags, s, real_map):
         if e[0] != "ok":
             return e
         if e[1] is None:
-            return ("err",)
+            return ("ok", None)       # "null:" is the origin of every left-hand history
         cands = [r for r in ml if daglib.is_ancestor(g, e[1], r)]
         return ("ok", cands[0]) if cands else ("err",)
     raise ValueError(s)
 
 
+def _unique_lca(g, a, b):
+    """The definition of Graph.find_unique_lca: the lowest common ancestor; when there are
+    several, the lowest common ancestor of those (repeated); None when they share nothing."""
+    keys = {a, b}
+    for _ in range(len(g) + 3):
+        ca = None
+        for k in keys:
+            ak = daglib.ancestors(g, [k])
+            ca = ak if ca is None else ca & ak
+        lcas = daglib.heads(g, ca)
+        if not lcas:
+            return None
+        if len(lcas) == 1:
+            return next(iter(lcas))
+        keys = lcas
+    raise AssertionError("find_unique_lca reference does not terminate")
+
+
 def _check_lca(g, a, b, r):
-    ca = daglib.ancestors(g, [a]) & daglib.ancestors(g, [b])
-    if not ca:
-        return None if r is None else f"ancestor: gave {r} but the tips {a},{b} have no common ancestor"
-    if r is None:
-        return None          # reported as NoCommonAncestor: checked by the status comparison
-    if r not in ca:
+    want = _unique_lca(g, a, b)
+    if r != want:
+        return f"the unique lowest common ancestor of {a} and {b} is {want}, got {r}"
+    if r is not None and not (daglib.is_ancestor(g, r, a) and daglib.is_ancestor(g, r, b)):
         return f"ancestor: gave {r}, which is not a common ancestor of {a} and {b}"
-    lcas = daglib.heads(g, ca)
-    if len(lcas) == 1 and r not in lcas:
-        return f"ancestor: gave {r} but the unique lowest common ancestor of {a},{b} is {sorted(lcas)}"
     return None
 
 
@@ -493,8 +521,8 @@ def oracle(inp, obs):
             continue
         if e[0] == "lca":
             if failed:
-                if str(o) != "NoCommonAncestor" or (daglib.ancestors(g, [e[1]]) & daglib.ancestors(g, [e[2]])):
-                    return f"{name} of ancestor: failed with {o} although a common ancestor exists"
+                if str(o) != "NoCommonAncestor" or _unique_lca(g, e[1], e[2]) is not None:
+                    return f"{name} of ancestor: failed with {o} although the unique LCA is {_unique_lca(g, e[1], e[2])}"
                 continue
             why = _check_lca(g, e[1], e[2], rev)
             if why:
